@@ -1043,3 +1043,12 @@ CONTRACTS[U + 'mask'] = dict(
     hints={'return': [('forall_lemma', [('c', '0', 'N')], 'inq_exists', ['qubits', 'len(qubits)', 'c']),
                       ('forall_lemma', [('k', '0', 'len(qubits)')], 'inq_member', ['qubits', 'len(qubits)', 'k'], {'trigger': 'qubits[k]'})]},
 )
+
+
+LEMMAS['acq_unit'] = dict(
+    doc='the symplectic form with a unit string reads off the partner component',
+    params=[('g', 'int1'), ('i', 'int'), ('m', 'int'), ('n', 'int')],
+    requires=['0 <= i', 'm >= 2 * n'],
+    ensures=['AcqSum(g, Unit(i, m), n) == ((g[i + 1] if i % 2 == 0 else 0 - g[i - 1]) if i < 2 * n else 0)'],
+    induction='n',
+)
